@@ -212,7 +212,7 @@ impl Property for C13 {
         "C13"
     }
     fn rule(&self) -> String {
-        "all program families (deep nests up to depth 400, wide programs up to ~20 kB) x width x level 0..3, every case in the release and the debug-assertions build. total: ir parse+optimize, both bytecode translations, IrInterpreter/BcInterpreter/BaseJitCompiler::create and print_mc in the four (limit, safe) combinations must return (panic, abort, stack overflow = violation). no blow-up: rendered IR and both bytecodes stay below 64 n^2 + 4096 characters for an n byte source (time is not used as a signal). deterministic: (i) everything is rendered, up to 3 other programs are compiled at all levels, everything is rendered again - byte-identical (every std HashMap instance has its own seed, so order dependence shows); (ii) on a 4% sample two fresh processes started with ASLR disabled must print identical digests. reusable: each compiling executor runs an interrupted execute_limited(3), then execute_limited(50000) three times on fresh contexts (identical logs and flags; the interrupted log is a prefix) and, when the canonical run halts, execute three times (log equals the reference). Non-trivial: bytecode generation allocated >= 3 temporaries (the hash-map-iterating paths ran) or nesting depth >= 50; distinct = distinct (program, width, level)".into()
+        "all program families (deep nests up to depth 400, wide programs up to ~20 kB) x width x level 0..3, every case in the release and the debug-assertions build. total: ir parse+optimize, both bytecode translations, IrInterpreter/BcInterpreter/BaseJitCompiler::create and print_mc in the four (limit, safe) combinations must return (panic, abort, stack overflow = violation). no blow-up: rendered IR and both bytecodes stay below 64 n^2 + 4096 characters for an n byte source (time is used only in the extreme: a case that does not come back within 30 s and again within 240 s alone - compilation normally takes milliseconds - is reported as `compile-hang`). deterministic: (i) everything is rendered, up to 3 other programs are compiled at all levels, everything is rendered again - byte-identical (every std HashMap instance has its own seed, so order dependence shows); (ii) on a 4% sample two fresh processes started with ASLR disabled must print identical digests. reusable: each compiling executor runs an interrupted execute_limited(3), then execute_limited(50000) three times on fresh contexts (identical logs and flags; the interrupted log is a prefix) and, when the canonical run halts, execute three times (log equals the reference). Non-trivial: bytecode generation allocated >= 3 temporaries (the hash-map-iterating paths ran) or nesting depth >= 50; distinct = distinct (program, width, level)".into()
     }
     fn assumptions(&self) -> Vec<String> {
         vec!["machine code embeds addresses of runtime functions, so cross-process comparison runs with ASLR disabled (personality ADDR_NO_RANDOMIZE)".into(), "'no super-polynomial blow-up' is checked through a size bound that sat >= 57x above everything observed at design time; wall-clock time is not a correctness signal".into()]
@@ -236,7 +236,27 @@ impl Property for C13 {
         let r = refmodel::run(&c.program, &c.input, c.bits, 60_000);
         let canon = if r.fate == Fate::Halt { Some(r.events.clone()) } else { None };
         let c2 = c.clone();
-        let out = verdict::in_child(std::time::Duration::from_secs(30), stats, move || with_cell!(c2.bits, C, checks::<C>(&c2, canon)));
+        let c3 = c.clone();
+        let canon2 = canon.clone();
+        let shrinking_a_hang = crate::judge::HANG_SHRINK.load(std::sync::atomic::Ordering::Relaxed);
+        let first_window = if shrinking_a_hang { 4 } else { 30 };
+        let mut out = verdict::in_child(std::time::Duration::from_secs(first_window), stats, move || with_cell!(c2.bits, C, checks::<C>(&c2, canon)));
+        if shrinking_a_hang {
+            // candidates of a confirmed compile-hang: still running after 4 s counts; the minimal case is confirmed in full afterwards
+            if matches!(&out, Outcome::Inconclusive(w) if w == "timeout") {
+                return Outcome::Fail(Fail { kind: "compile-hang".into(), detail: "still compiling after the shrink window (unconfirmed)".into(), cfg: None });
+            }
+        } else if matches!(&out, Outcome::Inconclusive(w) if w == "timeout") && !crate::judge::FAST_REJECT.load(std::sync::atomic::Ordering::Relaxed) {
+            // Compiling and running the small budgets normally takes milliseconds (slowest observed: 50 ms for
+            // 20 kB). Not coming back within 30 s, confirmed alone with a 240 s window - four to five orders of
+            // magnitude beyond that - is not a load effect: building an executor does not return.
+            let mut scratch = Stats::default();
+            let again = verdict::in_child(std::time::Duration::from_secs(240), &mut scratch, move || with_cell!(c3.bits, C, checks::<C>(&c3, canon2)));
+            out = match again {
+                Outcome::Inconclusive(w) if w == "timeout" => Outcome::Fail(Fail { kind: "compile-hang".into(), detail: format!("compiling / rendering / the budget-limited reuse runs of this {} byte program at i{} -O{} did not return within 240 s in isolation (after 30 s under load)", c.program.len(), c.bits, c.level), cfg: None }),
+                o => o,
+            };
+        }
         if let Outcome::Pass { nontrivial } = out {
             if c.cross_process {
                 let a = fresh_process_digest(c);
